@@ -51,15 +51,19 @@ def verify_guard(prog, g):
         if len(gets) != 1 or len(sets) != 1:
             continue
         # values derived from the counter read
-        tracked, cons = flow_forward(b, [gets[0].dest[0]], [r"num::<impl usize>::(checked_add|saturating_add|wrapping_add)$", r"Option::<T>::unwrap"])
+        tracked, cons = flow_forward(b, [gets[0].dest[0]], [r"num::<impl usize>::(checked_add|saturating_add|wrapping_add)$", r"Option::<T>::unwrap",
+                                                            r"ops::try_trait::Try::branch$"])
         derived = set(tracked)
         # also the payload of Some(checked_add(..)) matched by a pattern
-        for bb in b.reachable:
+        for _round in range(4):
+          for bb in b.reachable:
             for st in b.stmts(bb):
                 if st["k"] == "assign" and len(st["lhs"]) == 1 and st["rv"]["k"] == "use":
                     p = st["rv"]["a"].get("m") or st["rv"]["a"].get("c")
                     if p and p[0] in derived:
                         derived.add(st["lhs"][0])
+                if st["k"] == "assign" and len(st["lhs"]) == 1 and st["rv"]["k"] == "ref" and st["rv"]["p"] and st["rv"]["p"][0] in derived:
+                    derived.add(st["lhs"][0])       # a reference to (the payload of) the derived value: `.filter(|t| *t <= LIMIT)`
                 if st["k"] == "assign" and len(st["lhs"]) == 1 and st["rv"]["k"] == "binop" and st["rv"]["op"].startswith("Add"):
                     if op_base(st["rv"]["a"]) in derived or op_base(st["rv"]["b"]) in derived:
                         derived.add(st["lhs"][0])
@@ -87,6 +91,11 @@ def verify_guard(prog, g):
                 if st["k"] == "assign" and st["lhs"] == [0] and st["rv"]["k"] == "agg" and st["rv"].get("variant") in ("None", "Err"):
                     if sets[0].bb not in b.reach_from([0], avoid=[]) or not b.dominates(sets[0].bb, bb):
                         fail = True
+        for c in b.calls:
+            # `...?` on the refused side: the residual becomes the return value
+            if re.search(r"FromResidual::from_residual$", c.path or "") and c.dest == [0] and not b.dominates(sets[0].bb, c.bb) and \
+                    sets[0].bb not in b.reach_from([c.bb]):
+                fail = True
         if not inc or not fail:
             res = (False, None, "stored value is not the incremented counter, or there is no failing exit")
             continue
